@@ -169,6 +169,18 @@ let handle (fields : string list) : string =
                                 | [id; gs] -> (n_of_string id, parse_gostruct gs)
                                 | _ -> failwith "bad dinit") (split ' ' msgs) in
     (match dialect_init ms with Ok _ -> "ok" | Err _ -> "err" | Panic -> "panic")
+  | ["forward"; dname; key; wdname; h] ->
+    (* one hop: read one frame (reader with dname/key), write it unchanged (writer with wdname) *)
+    let cfg = { r_dialect = get_dialect dname; r_inkey = key_opt key } in
+    let s = { s_buf = []; s_rest = [Data (bytes_of_hex h)] } in
+    let ((r, _), _) = reader_read cfg N0 s in
+    (match r with
+     | RFrame f ->
+       let (w, f') = frame_write (get_dialect wdname) f in
+       "F(" ^ show_frame f ^ ") -> " ^ (match w with Ok bs -> "ok " ^ hex_of_bytes bs | Err _ -> "err" | Panic -> "panic")
+     | other -> show_rres other)
+  | ["fixframe"; dname; key; fr] ->
+    show_res show_frame (fix_frame (get_dialect dname) (key_opt key) (parse_frame fr))
   | ["tsmono"; ops] ->
     let ts = List.filter_map (fun op -> match split '@' op with
                                 | [_; now] -> if now = "0" then None else Some (n_of_string now)
